@@ -585,7 +585,7 @@ static void run_hist(const char *args)
  * pre-filled with 0x5A / 0xA5, reading <rows> scan lines per call; every sample of every row
  * reported as produced must be the same in both runs (i.e. was written by the library).
  * flags: bit0 do_fancy_upsampling, bit1 JDCT_IFAST, bits2-3 rows per call - 1, bit4 out colour space
- * variant, bit5 scale 1/2, bit6 do_block_smoothing off, bit7 skip_scanlines in the middle */
+ * variant, bit5 scale 1/2, bit6 do_block_smoothing off, bit7 skip_scanlines in the middle, bit8 RGB565 output */
 static unsigned long crop_once(const unsigned char *buf, size_t len, int flags, JDIMENSION xo, JDIMENSION cw, int fill, long *rows_out, int *err)
 {
   struct jpeg_decompress_struct c; struct my_err e; unsigned long hh = 7; volatile long rows = 0; unsigned char *volatile rowbuf = NULL;
@@ -600,28 +600,36 @@ static unsigned long crop_once(const unsigned char *buf, size_t len, int flags, 
   if (jpeg_read_header(&c, TRUE) != JPEG_HEADER_OK) { *err = -2; goto done; }
   if ((unsigned long long)c.image_width * c.image_height > MAXPIXELS || c.master->lossless || c.data_precision > 12) { *err = -3; goto done; }
   {
-    int prec = c.data_precision, ssz = prec <= 8 ? 1 : 2, k; JSAMPROW rp[4]; size_t rowbytes;
+    int prec = c.data_precision, ssz = prec <= 8 ? 1 : 2, k; JSAMPROW rp[4]; size_t rowbytes, rowstride = 0;
     c.do_fancy_upsampling = flags & 1; c.dct_method = (flags & 2) ? JDCT_IFAST : JDCT_ISLOW;
     c.do_block_smoothing = (flags & 64) ? FALSE : TRUE;
     if (flags & 32) { c.scale_num = 1; c.scale_denom = 2; }
     if ((flags & 16) && c.jpeg_color_space == JCS_YCbCr) c.out_color_space = prec <= 8 ? JCS_EXT_BGRX : JCS_GRAYSCALE;
+    /* bit8: RGB565 output (2 bytes per pixel, ordered dither on odd seeds), exact-size rows under ASan */
+    if ((flags & 256) && prec == 8 && (c.jpeg_color_space == JCS_YCbCr || c.jpeg_color_space == JCS_GRAYSCALE || c.jpeg_color_space == JCS_RGB)) {
+      c.out_color_space = JCS_RGB565; c.dither_mode = (flags & 2) ? JDITHER_ORDERED : JDITHER_NONE; }
     jpeg_start_decompress(&c);
     if (xo >= c.output_width) xo = c.output_width - 1;
     if (cw == 0 || xo + cw > c.output_width) cw = c.output_width - xo;
     if (prec <= 8) jpeg_crop_scanline(&c, &xo, &cw); else jpeg12_crop_scanline(&c, &xo, &cw);
-    rowbytes = (size_t)c.output_width * c.output_components * ssz;
-    rowbuf = (unsigned char *)malloc(rowbytes * nper + 1);
-    for (k = 0; k < nper; k++) rp[k] = rowbuf + k * rowbytes;
+    /* RGB565: 2 bytes per pixel are produced (out_color_components is 3); rows of 16-bit pixels must be
+       4-byte aligned for the library's packed stores, as any array of such pixels is */
+    rowbytes = (size_t)c.output_width * (c.out_color_space == JCS_RGB565 ? 2 : c.output_components) * ssz;
+    { size_t stride = (rowbytes + 3) & ~(size_t)3;
+      rowbuf = (unsigned char *)malloc(stride * nper + 4);
+      for (k = 0; k < nper; k++) rp[k] = rowbuf + k * stride;
+      rowstride = stride; }
     while (c.output_scanline < c.output_height) {
       JDIMENSION n, want = nper;
       if ((flags & 128) && c.output_scanline == c.output_height / 3 && c.output_height > 9) {
         if (prec <= 8) jpeg_skip_scanlines(&c, c.output_height / 4); else jpeg12_skip_scanlines(&c, c.output_height / 4);
         if (c.output_scanline >= c.output_height) break;
       }
-      memset(rowbuf, fill, rowbytes * nper);
+      memset(rowbuf, fill, rowstride * nper);
       if (prec <= 8) n = jpeg_read_scanlines(&c, rp, want); else n = jpeg12_read_scanlines(&c, (J12SAMPARRAY)rp, want);
       if (n == 0) break;
-      hh = hh * 31 + fnv(rowbuf, rowbytes * n); rows += n;
+      for (k = 0; k < (int)n; k++) hh = hh * 31 + fnv(rp[k], rowbytes);
+      rows += n;
     }
     jpeg_finish_decompress(&c);
   }
